@@ -165,6 +165,7 @@ func c11Scenarios(thorough bool) []*explore.Scenario {
 	}
 	menus := []menu{
 		{"SP", "BIGC", []explore.Op{op(explore.Put, "n1"), op(explore.Put, "n2"), op(explore.Delete, "h0"), op(explore.Put, "m2"), op(explore.Delete, "o0"), op(explore.Put, "n3"), op(explore.Put, "h0")}},
+		{"MS", "BIGC", []explore.Op{op(explore.Put, "n3"), op(explore.Put, "n5"), op(explore.Delete, "mv"), op(explore.Put, "st"), op(explore.Delete, "b4"), op(explore.Put, "n1")}},
 		{"ML", "BIGC", []explore.Op{op(explore.Put, "n0"), op(explore.Delete, "a0"), op(explore.Put, "co"), op(explore.Put, "n2"), op(explore.Delete, "ao"), op(explore.Put, "b1")}},
 		{"S2", "ROLL", []explore.Op{op(explore.Compact, ""), op(explore.Put, "e"), op(explore.Delete, "a"), op(explore.Put, "n"), op(explore.Put, "d")}},
 		{"CH", "BIGC", []explore.Op{op(explore.Delete, "h0"), op(explore.Put, "x"), op(explore.Put, "o0"), op(explore.Delete, "o1"), op(explore.Put, "y")}},
@@ -189,7 +190,7 @@ func c11Scenarios(thorough bool) []*explore.Scenario {
 		}
 	}
 	// two writers next to the scan (smaller bases only: the interleaving space is the product)
-	for _, m := range menus[2:3] {
+	for _, m := range menus[3:4] {
 		for i, w1 := range m.ops {
 			for j, w2 := range m.ops {
 				if j <= i || (!thorough && (i+j)%2 == 0) {
